@@ -9,3 +9,4 @@ pub mod c15;
 pub mod menc;
 pub mod c13;
 pub mod c12;
+pub mod c11;
